@@ -14,6 +14,27 @@ def monitors(ctx, r, p, n):
     c02.check_prog(ctx, r, q, n)
 
 
+def spelling_twins(ctx, r, b, twins):
+    """Two programs that differ only in how the contract's type parameter is spelled publish the same schemas: the
+    spelling of a parameter is not observable (only the program's own module name differs in type names)."""
+    import json
+    docs = []
+    for p in twins:
+        d = {}
+        for op in ["schemas:w", "schemas:c"] + [f"schema_for:w:{k}" for k in ("exec", "query", "sudo")] + [f"schema_for:c:{k}" for k in ("exec", "query", "sudo")]:
+            o = r.call({"prog": p["name"], "op": op})
+            d[op] = json.dumps(o.get("res"), sort_keys=True).replace(p["name"], "<prog>")
+        docs.append(d)
+    for op in docs[0]:
+        ctx.ev()
+        if docs[0][op] != docs[1][op]:
+            ctx.violate("output-depends-on-parameter-spelling", f"{twins[0]['name']} / {twins[1]['name']}: `{op}` differs between the two spellings of the type parameter",
+                        {"op": op, "first": docs[0][op][:1500], "second": docs[1][op][:1500]})
+        else:
+            ctx.nontrivial(["spelling-twins", op])
+            ctx.count("spelling_twin_documents_equal")
+
+
 def run(ctx):
     ctx.rule = ("(a) a slice of every program family (custom msg/query types, interfaces in all three custom modes, reply tables with partial coverage, generic contracts, "
                 "overridden entry points, forwarded attributes) compiled in a crate whose only import of the framework is `svx = { package = \"sylvia\" }`; (b) one generic "
@@ -29,6 +50,9 @@ def run(ctx):
         def per_bin(b, progs, r):
             for p in progs:
                 monitors(ctx, r, p, n)
+            twins = [p for p in progs if p["name"] in ("nm_param_900", "nm_paramt_900")]
+            if len(twins) == 2:
+                spelling_twins(ctx, r, b, twins)
         fam.each_bin(per_bin)
         ctx.cov[famname + "_programs_compiled"] = len(fam.progs)
         ctx.cov[famname + "_programs_refused"] = len(fam.refused)
